@@ -105,6 +105,9 @@ def gen_input(rng, tier):
     inp["nema_queries"] = nema
     inp["thresholds"] = [0.1, 0.0, rng.choice([1e-3, 0.5, 2.0]), round(rng.uniform(0, 20), 3), -1.0]
     inp["snap_pick"] = rng.random()
+    if rng.random() < 0.3:
+        # the finished run is passed through to_json()/from_json(); the analysis functions are applied to the reloaded object
+        inp["json"] = "final"
     return inp
 
 
@@ -267,7 +270,8 @@ def finish_case(inp, ex, snapshot):
             if 0 < mean < 1e-9:
                 amb = True
     return dict(input=inp, impl=dict(extra=ex, ok=True), coq=case_coq(inp, ex), ambiguous=amb,
-                kind="m=%d/n=%d/%s" % (len(ex["cindex"]), len(ex["volts"]), "final" if snapshot == "final" else "mid-run"),
+                kind="m=%d/n=%d/%s" % (len(ex["cindex"]), len(ex["volts"]),
+                                       ("final-reloaded" if inp.get("json") else "final") if snapshot == "final" else "mid-run"),
                 sig=[inp["stations"], inp["sessions"], inp["script"], inp["constraints"], inp["cc_queries"],
                      inp["nema_queries"], snapshot],
                 nontrivial=ex["delivered"] != 0 or snapshot != "final")
